@@ -33,7 +33,7 @@ ASSUMPTIONS = [
     "payload space is the planted namespace listed in bounds; names resolving to other kinds of object are not distinguished by the code",
 ]
 TRUSTED = ["pydantic validate_call / model validation (executed)", "vt.sym explorer", "trap namespace in this file"]
-BOUNDS = {"module names": 7, "type names": 15, "nesting depth": "<= 2 quick; <= 4 thorough (all cause/context paths of length 2, cause^3)", "loads per run": "<= 2"}
+BOUNDS = {"module names": 8, "type names": 27, "nesting depth": "<= 2 quick; <= 4 thorough (all cause/context paths of length 2, cause^3)", "loads per run": "<= 2"}
 REQUIRED_COVERS = ["security_error", "exception_instance", "synthetic_class", "nested", "repeated", "via_result", "via_function", "constructor_fallback"]
 
 CALLS: List[Any] = []
@@ -110,9 +110,10 @@ def plant() -> None:
     atexit.register(shutil.rmtree, d, True)
 
 
-MODULES = [None, "vt_trapmod", "vt_missing_mod", "vtpkgx.errors", "builtins", "os", "vt_trapmod.sub"]
+MODULES = [None, "vt_trapmod", "vt_missing_mod", "vtpkgx.errors", "builtins", "os", "vt_trapmod.sub", "taskiq"]
 TYPES = ["trap_fn", "TrapCls", "trap_instance", "sub", "GoodExc", "BaseOnlyExc", "WeirdExc", "Holder.Inner", "Holder.fn", "Holder.NotExc",
-         "Holder.inst", "nothing", "Holder.nothing", "sub.f", "sub.E", "Boom", "system", "object", "ValueError", "eval", "f", "E"]
+         "Holder.inst", "nothing", "Holder.nothing", "sub.f", "sub.E", "Boom", "system", "object", "ValueError", "eval", "f", "E",
+         "api.run_receiver_task", "cli", "schedule_sources.LabelScheduleSource", "exceptions.SecurityError", "AsyncBroker"]
 ARGS: List[Tuple[Any, ...]] = [(), ("a",), ("x", 1)]
 
 
@@ -133,10 +134,15 @@ def _resolve(module: Optional[str], name: str) -> Tuple[str, Any]:
         return "synthetic", None
     if module not in sys.modules:
         return "synthetic", None
+    import inspect
+
     obj: Any = sys.modules[module]
     for part in name.split("."):
         try:
-            obj = getattr(obj, part)
+            # static lookup: the oracle itself must not trigger lazy attribute hooks (module-level __getattr__)
+            obj = inspect.getattr_static(obj, part)
+            if isinstance(obj, (staticmethod, classmethod)):
+                obj = obj.__func__
         except AttributeError:
             return "synthetic", None
     if isinstance(obj, type) and issubclass(obj, BaseException):
